@@ -240,24 +240,24 @@ func (c *Ctx) finish(verifDir string, start time.Time, seed int, spec *PropSpec,
 	}
 	sort.Strings(rules)
 	cov := map[string]interface{}{
-		"explanation":         spec.Explanation,
-		"obligations":         len(c.Obs),
-		"discharged":          nOK,
-		"known_findings":      nKnown,
-		"evaluations":         len(c.Obs),
-		"distinct_nontrivial": len(distinct),
-		"rule":                "obligations are rule instances enumerated from the rule tables against the resolved program (types + SSA); an instance is distinct by (rule, construct key) and non-trivial when its anchor resolved and a CFG/SSA/type query was evaluated on it. Rules: " + strings.Join(rules, " | "),
-		"samples":             samples,
-		"per_rule":            perRule,
-		"functions_analysed":  fnNames,
-		"blocks_analysed":     nBlocks,
+		"explanation":           spec.Explanation,
+		"obligations":           len(c.Obs),
+		"discharged":            nOK,
+		"known_findings":        nKnown,
+		"evaluations":           len(c.Obs),
+		"distinct_nontrivial":   len(distinct),
+		"rule":                  "obligations are rule instances enumerated from the rule tables against the resolved program (types + SSA); an instance is distinct by (rule, construct key) and non-trivial when its anchor resolved and a CFG/SSA/type query was evaluated on it. Rules: " + strings.Join(rules, " | "),
+		"samples":               samples,
+		"per_rule":              perRule,
+		"functions_analysed":    fnNames,
+		"blocks_analysed":       nBlocks,
 		"instructions_analysed": nInstr,
-		"packages_loaded":     c.P.NumPkgs,
-		"callgraph":           c.P.cgMode,
-		"repo":                c.P.Repo,
-		"exhaustive":          true,
-		"notes":               c.Notes,
-		"not_decided":         spec.NotDecided,
+		"packages_loaded":       c.P.NumPkgs,
+		"callgraph":             c.P.cgMode,
+		"repo":                  c.P.Repo,
+		"exhaustive":            true,
+		"notes":                 c.Notes,
+		"not_decided":           spec.NotDecided,
 	}
 	for k, v := range extra {
 		cov[k] = v
